@@ -46,11 +46,19 @@ pub open spec fn kind_of(v: Variant) -> Kind {
     }
 }
 
+// kept opaque so that unfolding `view` stays cheap; only lemma_hole_facts looks inside
+#[verifier::opaque]
+pub open spec fn view_hole<'a>(c: Rc<RefCell<Option<Term<'a>>>>, s: usize) -> STerm {
+    if hole_resolved(c) && s < BOUND() { s_raise(hole_view(c), s as nat) } else { STerm::Hole }
+}
+
 pub open spec fn view(t: Term) -> STerm
     decreases t, 1nat
 {
     match t.variant {
-        Unifier(_, _) => STerm::Hole,
+        // a resolved hole stands for its content raised by the recorded shift; an unresolved hole (or an
+        // absurd shift) is a Hole, which every precondition s_ok(..) excludes
+        Unifier(c, s) => view_hole(c, s),
         Variable(_, i) => STerm::Var(i as nat),
         _ => STerm::Node(kind_of(t.variant), kids_of(t)),
     }
@@ -73,6 +81,26 @@ pub open spec fn kids_of(t: Term) -> Seq<STerm>
                 if 0 <= i < defs@.len() { view(*defs@[i].1) }
                 else if defs@.len() <= i < 2 * defs@.len() { view(*defs@[i - defs@.len()].2) }
                 else { view(*body) }),
+    }
+}
+
+// No `Unifier` node anywhere in the term itself (cell contents are not looked at).  Only used to keep the
+// evaluator's contract strict on hole-free terms: a silent "zonking" step is allowed only where a hole is.
+pub open spec fn t_unifier_free(t: Term) -> bool
+    decreases t
+{
+    match t.variant {
+        Unifier(_, _) => false,
+        Type | Integer | IntegerLiteral(_) | Boolean | True | False | Variable(_, _) => true,
+        Lambda(_, _, a, b) | Pi(_, _, a, b) | Application(a, b) | Sum(a, b) | Difference(a, b) | Product(a, b) | Quotient(a, b)
+        | LessThan(a, b) | LessThanOrEqualTo(a, b) | EqualTo(a, b) | GreaterThan(a, b)
+        | GreaterThanOrEqualTo(a, b) => t_unifier_free(*a) && t_unifier_free(*b),
+        Negation(a) => t_unifier_free(*a),
+        If(a, b, c) => t_unifier_free(*a) && t_unifier_free(*b) && t_unifier_free(*c),
+        Let(defs, body) => {
+            &&& forall|i: int| #![trigger defs@[i]] 0 <= i < defs@.len() ==> t_unifier_free(*defs@[i].1) && t_unifier_free(*defs@[i].2)
+            &&& t_unifier_free(*body)
+        }
     }
 }
 
